@@ -128,6 +128,9 @@ impl RegisterBase {
         }
 
         let address = self.address(device, store, cx)?;
+        // Every write through this register, including a raw `IRegister::write`, must drop the
+        // caches of the registers that declare it as `pInvalidator`.
+        cx.invalidate_cache_by(nid);
         self.p_port
             .expect_iport_kind(store)?
             .write(address, buf, device, store, cx)?;
